@@ -1,12 +1,166 @@
 import Driver.Util
-/-! Driver section for C06 (stub until the model is online). -/
-namespace Driver.C06
-open Rxn Driver
+import RxnModel.Model.Rescale
+/-!
+Driver section for C06 (trace validation: every input line is `op ## impl-output`).
 
-def step (st : Unit) : List String → Unit × String
+* `assign` / `deploy`    lockstep on `AssignRanges` (and the handles `Assembly.Deploy` passes to each operator)
+* `new/put/del/ckpt`     old DKV instances; `ckpt` reads the real checkpoint document (tables with sequence numbers,
+                         WAL entries) from the implementation's output and validates it against the instance's map
+* `open`                 `Rescale.openDB` over the recorded documents in the given handle order with ownership
+* `get/scan/scanown`     answered by the Lsm read definitions on the model state; spec = union of the old maps
+                         filtered by ownership, updated by the writes after the restore
+-/
+namespace Driver.C06
+open Rxn Driver Rxn.Lsm Rxn.Rescale
+
+structure Inst where
+  id : Nat
+  range : KGRange
+  s : State
+  /-- newest binding first -/
+  spec : List Entry
+
+structure Saved where
+  inst : Nat
+  cid : Nat
+  range : KGRange
+  ck : Ckpt
+  spec : List Entry
+
+structure St where
+  insts : List Inst := []
+  saved : List Saved := []
+
+def splitHint (ws : List String) : List String × List String :=
+  let i := ws.idxOf "##"
+  (ws.take i, ws.drop (i + 1))
+
+def parseRanges (s : String) : List KGRange :=
+  if s == "-" || s == "" then [] else
+  (s.splitOn ";").filterMap fun item =>
+    match item.splitOn "," with
+    | [a, b] => some ⟨natOr a, natOr b⟩
+    | _ => none
+
+def showIdx (l : List Nat) : String := if l.isEmpty then "-" else joinWith "," (l.map toString)
+
+def showAssign (a : List (List Nat)) : String := if a.isEmpty then "none" else joinWith "|" (a.map showIdx)
+
+def parseNats (s : String) : List Nat := if s == "-" || s == "" then [] else (s.splitOn ",").map natOr
+
+def showAnswer : Option Bytes → String
+  | some v => "val " ++ toHex v
+  | none => "absent"
+
+def showScan (r : Run) : String :=
+  if r.isEmpty then "empty" else joinWith "," (r.map fun e => toHex e.key ++ ":" ++ toHex e.val)
+
+def withSpec (model spec : String) : String :=
+  if model == spec then model else model ++ " #spec " ++ spec
+
+def specGet (m : List Entry) (k : Bytes) : Option Entry := Run.lookup m k
+
+/-- live keys with the prefix in ascending order with their latest values -/
+def specScan (m : List Entry) (p : Bytes) : Run :=
+  let keys := (m.map (·.key)).eraseDups
+  let latest := keys.filterMap (fun k => specGet m k)
+  let live := latest.filter (fun e => !e.del && Bytes.hasPrefix e.key p)
+  live.foldl (fun acc e => Run.insert acc e) []
+
+/-- parse `k:seq:d:v;k:seq:d:v` -/
+def parseRun (s : String) : Run :=
+  if s == "empty" || s == "" then [] else
+  (s.splitOn ";").filterMap fun item =>
+    match item.splitOn ":" with
+    | [k, sq, d, v] => some ⟨hexOr k, natOr sq, d == "1", hexOr v⟩
+    | _ => none
+
+def parseLevel (s : String) : List Tbl :=
+  if s == "e" || s == "" then [] else (s.splitOn "|").map fun t => ⟨0, parseRun t⟩
+
+def parseWal (s : String) : List WalEntry :=
+  if s == "e" || s == "" then [] else
+  (s.splitOn ";").filterMap fun item =>
+    match item.splitOn ":" with
+    | [k, d, v] => some ⟨hexOr k, d == "1", hexOr v⟩
+    | _ => none
+
+def parseCkpt (levels wal : String) : Ckpt := ⟨(levels.splitOn "/").map parseLevel, parseWal wal⟩
+
+def findInst (st : St) (id : Nat) : Option Inst := st.insts.find? (·.id == id)
+
+def setInst (st : St) (i : Inst) : St :=
+  { st with insts := i :: st.insts.filter (·.id != i.id) }
+
+def ckptKeys (c : Ckpt) : List Bytes :=
+  (c.levels.flatten.flatMap (fun t => t.run.map (·.key))) ++ c.wal.map (·.key)
+
+/-- the recorded document must describe the instance's map on the keys it owns (C08's subject; M-obs here) -/
+def ckptMismatch (i : Inst) (c : Ckpt) : Option Bytes :=
+  let keys := ((i.spec.map (·.key)) ++ ckptKeys c).eraseDups.filter (Keys.ownsKey i.range)
+  keys.find? (fun k => ckptAnswer c k != answer (specGet i.spec k))
+
+def parseHandle (s : String) : Nat × Nat :=
+  match s.splitOn ":" with
+  | [a, b] => (natOr a, natOr b)
+  | _ => (0, 0)
+
+def step (st : St) (ws : List String) : St × String :=
+  let (op, hint) := splitHint ws
+  match op with
+  | ["assign", to, frm] => (st, showAssign (assignRanges (parseRanges to) (parseRanges frm)))
+  | ["assignold", to, frm] => (st, showAssign (assignRangesOld (parseRanges to) (parseRanges frm)))
+  | ["deploy", kgc, n, frm] =>
+    -- handles given to each new operator: positions in the recorded checkpoint list (`sliceu.Pick` of the assignment)
+    let a := assignRanges (KeySpace.ranges (natOr kgc) (natOr n)) (parseRanges frm)
+    (st, showAssign (a.map fun idx => pick (List.range (parseRanges frm).length) idx))
+  | ["assigncheck", _, _, _, _] => (st, "ok")   -- spec: C06.assign_exact / assign_complete evaluated on the implementation
+  | ["new", id, lo, hi, _, _] =>
+    (setInst st ⟨natOr id, ⟨natOr lo, natOr hi⟩, {}, []⟩, "ok")
+  | ["put", id, k, v] =>
+    match findInst st (natOr id) with
+    | some i => (setInst st { i with s := write i.s (hexOr k) false (hexOr v), spec := ⟨hexOr k, 0, false, hexOr v⟩ :: i.spec }, "ok")
+    | none => (st, "no-instance")
+  | ["del", id, k] =>
+    match findInst st (natOr id) with
+    | some i => (setInst st { i with s := write i.s (hexOr k) true [], spec := ⟨hexOr k, 0, true, []⟩ :: i.spec }, "ok")
+    | none => (st, "no-instance")
+  | ["settle", _] => (st, "ok")
+  | ["ckpt", id, cid] =>
+    match findInst st (natOr id), hint with
+    | some i, ["ckpt", levels, wal] =>
+      let c := parseCkpt levels wal
+      match ckptMismatch i c with
+      | some k => (st, "bad-ckpt " ++ toHex k)
+      | none =>
+        ({ st with saved := ⟨i.id, natOr cid, i.range, c, i.spec⟩ :: st.saved }, joinWith " " hint)
+    | some _, _ => (st, "ckpt-unreadable")
+    | none, _ => (st, "no-instance")
+  | ["open", id, lo, hi, _, _, hs] =>
+    let r : KGRange := ⟨natOr lo, natOr hi⟩
+    let own := Keys.ownsKey r
+    let handles := (hs.splitOn ",").map parseHandle
+    let found := handles.filterMap fun (a, b) => st.saved.find? (fun s => s.inst == a && s.cid == b)
+    if found.length != handles.length then (st, "no-handle") else
+    let s := openDB own (found.map (·.ck))
+    let spec := found.flatMap fun sv => sv.spec.filter (fun e => own e.key)
+    (setInst st ⟨natOr id, r, s, spec⟩, s!"ok seq={s.seq}")
+  | ["get", id, k] =>
+    match findInst st (natOr id) with
+    | some i => (st, withSpec (showAnswer (answer (get i.s (hexOr k)))) (showAnswer (answer (specGet i.spec (hexOr k)))))
+    | none => (st, "no-instance")
+  | ["scan", id, p] =>
+    match findInst st (natOr id) with
+    | some i => (st, withSpec (showScan (scan i.s (hexOr p))) (showScan (specScan i.spec (hexOr p))))
+    | none => (st, "no-instance")
+  | ["scanown", id] =>
+    match findInst st (natOr id) with
+    | some i =>
+      (st, withSpec (showScan ((scan i.s []).filter (fun e => Keys.ownsKey i.range e.key))) (showScan (specScan i.spec [])))
+    | none => (st, "no-instance")
   | _ => (st, "bad-op")
 
 def handle (lines : Array String) (i : Nat) (out : Array String) : Nat × Array String :=
-  runLines step () lines i out
+  runLines step {} lines i out
 
 end Driver.C06
